@@ -305,6 +305,10 @@ def adjust_intervals(
     new_labels : list
         List of labels for ``new_labels``
     """
+    # Work on a copy of the labels so that the caller's list is never modified
+    if labels is not None:
+        labels = list(labels)
+
     # When supplied intervals are empty and t_max and t_min are supplied,
     # create one interval from t_min to t_max with the label start_label
     if t_min is not None and t_max is not None and intervals.size == 0:
@@ -388,6 +392,10 @@ def adjust_events(events, labels=None, t_min=0.0, t_max=None, label_prefix="__")
         Event times corrected to the given range.
 
     """
+    # Work on a copy of the labels so that the caller's list is never modified
+    if labels is not None:
+        labels = list(labels)
+
     if t_min is not None:
         first_idx = np.argwhere(events >= t_min)
 
